@@ -23,11 +23,11 @@ def convertChunk (numChannels : Nat) (bus : List (Frame α)) : List α :=
   bus.flatMap (convertFrame numChannels)
 
 /-- sizes of the chunks `Renderer::process` cuts a callback of `frames` frames into -/
-def chunkSizes (ibs : Nat) : Nat → Nat → List Nat
+def finalChunkSizes (ibs : Nat) : Nat → Nat → List Nat
   | 0, _ => []
   | fuel + 1, frames =>
     if frames = 0 then [] else
     let n := if ibs ≤ frames then ibs else frames
-    n :: chunkSizes ibs fuel (frames - n)
+    n :: finalChunkSizes ibs fuel (frames - n)
 
 end K
